@@ -455,7 +455,11 @@ def run(ctx):
     r5 = borrow(c01.r4_emission(ctx), "C02.R5", "each back-end emits every collected piece, in order",
                 "`all denote the same text`: a piece dropped by one back-end only (e.g. while regrouping a long value for the view) "
                 "makes the flavours diverge on that value", floor=3)
-    return [r1_siblings(ctx), r2_output_table(ctx), r3_input_table(ctx), r4_scoping(ctx), r5, r6_literal_text(ctx), r7_formatter_pipeline(ctx)]
+    from rules import entrytable
+    r8 = Rule("C02.R8", "each macro name selects the locale source and output flavour it says",
+              "`t!`, `td!`, `tu!` and their `_string` / `_display` flavours `all denote the same text`: the flavour and the locale source are selected by constants in the entry points; a crossed constant makes one macro behave as another", floor=4)
+    entrytable.check(ctx, r8, "R8")
+    return [r1_siblings(ctx), r2_output_table(ctx), r3_input_table(ctx), r4_scoping(ctx), r5, r6_literal_text(ctx), r7_formatter_pipeline(ctx), r8]
 
 
 MANIFEST_ENTRY = {
